@@ -254,6 +254,8 @@ def run_impl(case):
         for o in case["ops"]:
             try:
                 k = o[0]
+                pend = {nm: cm.delay.delays[nm][0].when() for nm in ("clear_fractional_credits", "clear_all_credits")
+                        if nm in cm.delay.delays}
                 if k == "coin":
                     r.hit_and_release_switch("s_c%d" % o[1])
                 elif k == "svc":
@@ -285,7 +287,10 @@ def run_impl(case):
             except Exception as e:   # noqa: what the code raises is data
                 out["crash"] = {"at": len(out["rows"]), "type": type(e).__name__, "msg": str(e)[:200]}
                 break
-            out["rows"].append(snap())
+            row = snap()
+            row["expdue"] = [int(nm in pend and pend[nm] <= r.now()) for nm in
+                             ("clear_fractional_credits", "clear_all_credits")]
+            out["rows"].append(row)
         out["derived_end"] = derived()
         return out
     finally:
@@ -311,9 +316,7 @@ def row_z(cfg, row, prev):
     e = row["earn"]
     coins = e.get("1 Total Coins money", 0)
     pcoins = prev["earn"].get("1 Total Coins money", 0)
-    accepted = coins - pcoins if row["earn"] or not prev["earn"] else 0
-    if accepted < 0:
-        accepted = 0    # earnings_reset
+    accepted = max(0, coins - pcoins)    # earnings_reset empties the audits
     vals = [row["units"], 1 if row["fp"] else 0]
     vals += [0, 0, 0] if row["fp"] else row["wnd"]
     vals += [1 if row["ingame"] else 0, row["npl"], row["cpl"], row["ball"], row["tc"], coins, row["earn_ticks"][0],
@@ -390,7 +393,6 @@ def oracle(case, out):
     exp_coins, exp_ticks = 0, 0
     exp_key = {lb: [0, 0] for lb in cfg["labels"] if lb}
     money = 0            # ticks inserted in the current pricing-tier epoch; None = epoch start not known to the oracle
-    can_expire = cfg["frac_ms"] > 0 or cfg["all_ms"] > 0
     for i, (o, row) in enumerate(zip(case["ops"], out["rows"])):
         k = o[0]
         u, pu = to_int(row["units"]), to_int(prev["units"])
@@ -413,9 +415,8 @@ def oracle(case, out):
             if row["string"] != want or row["value"] != fmt_credits(u, upg):
                 fail("display-stale", "credit_units = %d (%s) but credits_string = %r / credits_value = %r %s" %
                      (u, want, row["string"], row["value"], where))
-        expired_ok = [pu]
-        if can_expire:
-            expired_ok = None      # an expiry may have fired inside this operation's 125 ms; see below
+        # an expiry deadline fell inside this operation: the exact-delta checks below are skipped for it
+        can_expire = any(row["expdue"])
         # start gate ------------------------------------------------------------------------------
         if k == "start":
             began = row["ingame"] and not prev["ingame"]
@@ -427,8 +428,7 @@ def oracle(case, out):
                         fail("start-without-price", "a player was added with only %s credits %s" %
                              (fmt_credits(pu, upg), where))
                     exp = pu - upg * added
-                    ok = [exp] + ([exp - exp % upg, 0] if can_expire else [])
-                    if u not in ok:
+                    if u != exp and not can_expire:
                         fail("start-deduction", "player added: balance went %d -> %d units, price is %d units %s" %
                              (pu, u, upg, where))
                 elif not blocked_by_game:
@@ -436,7 +436,7 @@ def oracle(case, out):
                         fail("start-denied", "start/add refused with %s credits %s" % (fmt_credits(pu, upg), where))
                     if row["ev"][0] < 1:
                         fail("start-denied-silent", "start/add refused without not_enough_credits %s" % where)
-                    if u != pu and not (can_expire and u in (0, pu - pu % upg)):
+                    if u != pu and not can_expire:
                         fail("start-deduction", "refused start changed the balance %d -> %d %s" % (pu, u, where))
             if began and not prev["fp"]:
                 money = 0
@@ -478,10 +478,7 @@ def oracle(case, out):
             want = before + delta
             if cfg["max"] > 0 and want > cfg["max"]:
                 want = max(before, Fraction(cfg["max"]))
-            wu = want * upg
-            ok = [wu] + ([wu - wu % upg, 0] if can_expire and k != "svc" else []) + \
-                 ([pu - pu % upg + (wu - pu), 0] if can_expire else [])
-            if Fraction(u) not in ok:
+            if Fraction(u, upg) != want and not can_expire:
                 fail("balance-formula", "%r: balance went %s -> %s credits, the pricing table yields %s %s" %
                      (o, fmt_credits(pu, upg), fmt_credits(u, upg), want, where))
         # epoch bookkeeping of the oracle: what it does not want to assume makes the epoch unknown
@@ -489,10 +486,8 @@ def oracle(case, out):
             money = 0
         if k == "endball" and row["ingame"] and row["cpl"] == 1 and row["ball"] == 2:
             money = None
-        if k == "wait" and cfg["all_ms"] > 0:
-            money = None
-        if cfg["all_ms"] > 0 and u == 0 and pu != 0 and k not in ("start", "rc"):
-            money = None
+        if row["expdue"][1]:
+            money = None       # clear_all_credits may have fired (it restarts the tiers)
         prev = row
     return fails
 
